@@ -21,14 +21,28 @@ def L(x):
     return sorted(int(v) for v in np.asarray(x).reshape(-1))
 
 
+ORDER = [0]
+
+
 def one(rounds, d, state_bits):
     desc = RepetitionCodeDescription.from_chain(length=2 * d - 1)
     init = InitialStateContainer.from_ordered_list([InitialStateEnum.ONE if b else InitialStateEnum.ZERO for b in state_bits])
-    circ = construct_repetition_code_multi_round_circuit(qec_cycles=list(rounds), description=desc, initial_state=init)
-    kern = RepetitionExperimentKernel(rounds=list(rounds), heralded_initialization=True, qutrit_calibration_points=True,
-                                      involved_data_qubit_ids=desc.data_qubit_ids, involved_ancilla_qubit_ids=desc.ancilla_qubit_ids,
-                                      experiment_repetitions=1)
-    row = {'rounds': list(rounds), 'H': 1, 'reps': 1, 'd': d, 'state': list(state_bits), 'cycle': int(kern.kernel_cycle_length), 'qubits': []}
+    # the kernel and the circuit are made from the same description object, in either order (alternating from row to row):
+    # neither may depend on the other having been made first
+    ORDER[0] += 1
+    kernel_first = ORDER[0] % 2 == 0
+
+    def mk_kernel():
+        return RepetitionExperimentKernel(rounds=list(rounds), heralded_initialization=True, qutrit_calibration_points=True,
+                                          involved_data_qubit_ids=desc.data_qubit_ids, involved_ancilla_qubit_ids=desc.ancilla_qubit_ids,
+                                          experiment_repetitions=1)
+    if kernel_first:
+        kern = mk_kernel()
+        circ = construct_repetition_code_multi_round_circuit(qec_cycles=list(rounds), description=desc, initial_state=init)
+    else:
+        circ = construct_repetition_code_multi_round_circuit(qec_cycles=list(rounds), description=desc, initial_state=init)
+        kern = mk_kernel()
+    row = {'rounds': list(rounds), 'H': 1, 'reps': 1, 'd': d, 'state': list(state_bits), 'cycle': int(kern.kernel_cycle_length), 'qubits': [], 'kernel_first': kernel_first}
     states = [StateKey.STATE_0, StateKey.STATE_1, StateKey.STATE_2]
     ops = circ.operations
     for qid in desc.data_qubit_ids + desc.ancilla_qubit_ids:
